@@ -1,6 +1,7 @@
 import FranzVerif.Model.C06
 import FranzVerif.Spec.C06
 import FranzVerif.Proof.C06
+import FranzVerif.Proof.C06Top
 /-! C06 — property theorems: fetch response parsing (`kgo.ProcessFetchPartition`).
 
 Property (properties.jsonl): the parser returns exactly the records a reference decoder of the Kafka log
@@ -23,10 +24,23 @@ What is a theorem here (all inputs, no size bound), about `Model.C06` (tied to s
                                     the records, nor the next offset, nor the error;
 * `next_offset_monotone`            the returned next offset is never below the requested one.
 
-NOT a theorem (kept visible, see the end of the file): `records_eq_reference` — equality of the returned
-records with `Spec.C06.refRecords` for every well-formed log — and `next_never_passes_unreturned`. They are
-*evaluated* by the driver on the implementation's output for every generated log against the generator's
-ground truth (`Spec.C06.holds`), which is a test, not a proof. -/
+* `records_eq_reference_partial`     for every list of well-formed frames (v0/v1 messages, compressed v0/v1 wrappers with
+                                    offset rebasing, v2 batches incl. compressed, compacted, empty, control and
+                                    transactional ones, the last one possibly cut short inside, then a truncated / failing
+                                    frame), every requested offset, isolation level and every aborted list *consistent
+                                    with the log*: the returned records are exactly `Spec.C06.refRecords` (order, every field);
+* `next_never_passes_unreturned_partial`  under the same hypotheses every record the reference decoder yields from the log
+                                    (response and beyond) is among the returned ones or lies at/after the next offset;
+* `next_within_response`            and the next offset stays at or below the end of the last batch wholly in the response;
+* `returned_below_next`             for every input the next offset is past every returned record;
+* `spec_holds_partial`              together: the executable predicate `Spec.C06.holds` that the driver evaluates on the
+                                    implementation's output holds of the model's result (same hypotheses as the `…_partial` ones).
+
+The two `…_partial` theorems carry explicit hypotheses (see the section at the end): the frames encode a log whose offsets
+increase (`WfLog`), and the aborted list is one a broker can send for that log and fetch offset (`AbortedConsistent`).
+Outside them the property text does not say what the result must be (a list naming a transaction twice, a transaction whose
+ABORT marker lies below the fetch offset); the model and the code are compared there by the differential run only.
+v1 wrappers stamped LogAppendTime are covered (the departure found here was repaired in /repo 581b089; the model follows). -/
 namespace Props.C06
 open Model.C06 Proof.C06
 
@@ -137,17 +151,216 @@ theorem next_offset_monotone_bytes (env : Env) (o : Opts) (kerr : Bool) (A : Lis
 /-- non-vacuity: an unknown magic byte at offset 41 moves the next offset from 7 to 42 -/
 example : process ⟨false, false, 7⟩ false [] [.badMagic 41] = .done [] 42 (some .unknownMagic) := by decide
 
-/-! ## Stated, evaluated on every run, NOT proved
+/-! ## Equality with the reference decoder, and the next offset
 
-`records_eq_reference`: for a well-formed log `L` (offsets strictly increasing across records and batches, base
-offsets ≥ 0, every batch complete, control batches transactional, the aborted list free of duplicates and such
-that two aborted transactions of one producer below an ABORT marker are separated by an ABORT marker, no listed
-transaction ending below the requested offset) and `items` its decoding:
-  `process o false A items = .done recs next none → recs.map obs = Spec.C06.refRecords ⟨o.offset, o.keepControl, o.readCommitted, A⟩ L`.
-`next_never_passes_unreturned`: under the same hypotheses every record of `Spec.C06.refRecords … L (full := true)`
-is in `recs` or has `offset ≥ next`.
-Both are the executable predicate `Spec.C06.holds`, which the driver evaluates on the implementation's output for
-every generated log (ground truth = what the generator wrote); the points the hypotheses exclude (inconsistent
-aborted lists, reordered frames, …) are run in the malformed stream and compared with the model only. -/
+Vocabulary (definitions in `Proof/C06Ref.lean`, written from the Kafka log format, not from source.go):
+`Rep it lb` — the decoded frame `it` is the encoding of the log batch `lb` of the Spec; `RepList` lifts it to lists;
+`WfLog L` — offsets increase inside every batch and from one batch to the next, records lie inside `[first, last]`, `first ≥ 0`;
+`AbortedConsistent o A L` — at every ABORT marker at most one listed transaction of its producer is open, and no listed
+transaction was ended by an ABORT marker lying entirely below the requested offset; `obs` — the observable fields of a
+returned record; `StopTail tail` — nothing, or a frame that stops the walk (`break` on a truncated frame, a `check()` failure)
+followed by anything.
+
+FULL STATEMENTS (not provable as such, kept visible):
+  `records_eq_reference`: the conclusion below for *every* aborted list `A`.
+  `next_never_passes_unreturned`: likewise.
+They fail in the model (and in the code, confirmed by the differential run's malformed stream, kinds 0 and 1) for lists
+the property does not speak about: with `A = [(p,5),(p,5)]` the parser keeps the second entry after the ABORT marker of
+`p` and drops `p`'s next, committed, transaction, which the order-free definition of the Spec keeps; with a listed
+transaction whose ABORT marker lies in a batch entirely below the requested offset the parser never sees that marker.
+A broker lists each aborted transaction once and only those that overlap the fetch range, so `AbortedConsistent` is the
+weakest hypothesis under which "the batches of aborted transactions" is defined by the list at all; the theorems are named
+`…_partial` for that reason. The remaining hypotheses are the well-formedness of the log format itself. -/
+
+open Proof.C06 in
+/-- (A) The returned records are exactly those of the reference decoder: the data records with offset ≥ the requested one,
+in order, with offset, timestamp, key, value, headers, attributes and producer fields; control records dropped (unless asked
+for) and, under read_committed, the batches of aborted transactions dropped. `items` are the frames of the response that are
+entirely there (the last one possibly a v2 batch cut short inside), `tail` what follows them. -/
+theorem records_eq_reference_partial (o : Opts) (A : List (Int × Int)) (items tail : List Item) (whole : List Spec.C06.LBatch)
+    (hrep : RepList items whole) (hwf : WfLog whole) (hcons : AbortedConsistent o A whole)
+    (hcomplete : ∀ b ∈ whole.dropLast, b.present = b.records.length) (htail : StopTail tail)
+    (recs : List Rec) (next : Int) (err : Option Err) (h : process o false A (items ++ tail) = .done recs next err) :
+    recs.map obs = Spec.C06.refRecords (reqOf o A) whole := by
+  obtain ⟨recs', next', err', h', hrecs, _, _⟩ :=
+    process_sim (rest := []) hrep (by simpa using hwf) (by simpa using hcons) hcomplete htail
+  rw [h] at h'
+  injection h' with e1 _ _
+  subst e1
+  rw [hrecs]
+  simp [Spec.C06.refRecords]
+
+open Proof.C06 in
+/-- (B) The returned next offset never passes an offset that holds an unreturned record the consumer must get: every record
+the reference decoder yields from the log itself — the batches of the response *in full* (also the records of a batch cut
+short that did not make it into the bytes) and the batches `rest` beyond the response — is among the returned records or lies
+at/after the next offset. This covers the KAFKA-5443 rule (an empty or tail-compacted batch moves the next offset to its last
+offset + 1: nothing unreturned lies below), the batch cut short inside (the rule is not applied) and a walk that stops at a
+truncated frame or a `check()` failure. -/
+theorem next_never_passes_unreturned_partial (o : Opts) (A : List (Int × Int)) (items tail : List Item)
+    (whole rest : List Spec.C06.LBatch)
+    (hrep : RepList items whole) (hwf : WfLog (whole ++ rest)) (hcons : AbortedConsistent o A (whole ++ rest))
+    (hcomplete : ∀ b ∈ whole.dropLast, b.present = b.records.length) (htail : StopTail tail)
+    (recs : List Rec) (next : Int) (err : Option Err) (h : process o false A (items ++ tail) = .done recs next err) :
+    ∀ r ∈ Spec.C06.refRecords (reqOf o A) (whole ++ rest) true, r ∈ recs.map obs ∨ next ≤ r.offset := by
+  obtain ⟨recs', next', err', h', hrecs, ⟨_, hhi⟩, hcut⟩ := process_sim hrep hwf hcons hcomplete htail
+  rw [h] at h'
+  injection h' with e1 e2 _
+  subst e1; subst e2
+  intro r hr
+  unfold Spec.C06.refRecords at hr
+  obtain ⟨b, hb, hrb⟩ := List.mem_flatMap.mp hr
+  rcases List.mem_append.mp hb with hbw | hbr
+  · rcases batchRecords_take_or_drop hrb with h1 | ⟨x, hx, hq, hxo⟩
+    · left; rw [hrecs]; exact List.mem_flatMap.mpr ⟨b, hbw, h1⟩
+    · right
+      have := hcut b hbw x hx
+      have hq' : o.offset ≤ x.offset := hq
+      omega
+  · right
+    obtain ⟨_, x, hx, hq, rfl⟩ := mem_batchRecords.mp hrb
+    simp only [if_true] at hx
+    have hq' : o.offset ≤ x.offset := hq
+    have hfirst := ((hwf.batch b hb).inRange x hx).1
+    have := hhi x.offset (fun b' hb' => by
+      have := (List.pairwise_append.mp hwf.ord).2.2 b' hb' b hbr
+      omega)
+    show next ≤ x.offset
+    omega
+
+open Proof.C06 in
+/-- The next offset is at least the requested one and never beyond the end of the last batch that is wholly in the response:
+for every `x` above the last offsets of those batches, `next ≤ max requested x` (a truncated trailing frame adds nothing). -/
+theorem next_within_response (o : Opts) (A : List (Int × Int)) (items tail : List Item) (whole : List Spec.C06.LBatch)
+    (hrep : RepList items whole) (hwf : WfLog whole) (hcons : AbortedConsistent o A whole)
+    (hcomplete : ∀ b ∈ whole.dropLast, b.present = b.records.length) (htail : StopTail tail)
+    (recs : List Rec) (next : Int) (err : Option Err) (h : process o false A (items ++ tail) = .done recs next err) :
+    o.offset ≤ next ∧ ∀ x, (∀ b ∈ whole, b.last < x) → next ≤ max o.offset x := by
+  obtain ⟨recs', next', err', h', _, hoff, _⟩ :=
+    process_sim (rest := []) hrep (by simpa using hwf) (by simpa using hcons) hcomplete htail
+  rw [h] at h'
+  injection h' with _ e2 _
+  subst e2
+  exact hoff
+
+/-- The next offset is past every returned record, for every input (arbitrary frames, options and aborted list). -/
+theorem returned_below_next (o : Opts) (kerr : Bool) (A : List (Int × Int)) (items : List Item)
+    (recs : List Rec) (next : Int) (err : Option Err) (h : process o kerr A items = .done recs next err) :
+    ∀ r ∈ recs, r.offset < next := Proof.C06.process_below h
+
+open Proof.C06 in
+/-- The predicate the driver evaluates on the implementation's output for every generated log, `Spec.C06.holds`, is a theorem
+about the model: records equal to the reference, next offset not backwards and past every returned record, no unreturned
+record of the log below it, and not beyond the last batch wholly in the response. -/
+theorem spec_holds_partial (o : Opts) (A : List (Int × Int)) (items tail : List Item) (whole rest : List Spec.C06.LBatch)
+    (hrep : RepList items whole) (hwf : WfLog (whole ++ rest)) (hcons : AbortedConsistent o A (whole ++ rest))
+    (hcomplete : ∀ b ∈ whole.dropLast, b.present = b.records.length) (htail : StopTail tail)
+    (recs : List Rec) (next : Int) (err : Option Err) (h : process o false A (items ++ tail) = .done recs next err) :
+    Spec.C06.holds (reqOf o A) whole rest (recs.map obs) next = true := by
+  have hwf' := wfLog_left hwf
+  have hcons' := abortedConsistent_left hwf hcons
+  have hA := records_eq_reference_partial o A items tail whole hrep hwf' hcons' hcomplete htail recs next err h
+  have hB := next_never_passes_unreturned_partial o A items tail whole rest hrep hwf hcons hcomplete htail recs next err h
+  have hC := next_within_response o A items tail whole hrep hwf' hcons' hcomplete htail recs next err h
+  have hD := process_below h
+  unfold Spec.C06.holds
+  simp only [Bool.and_eq_true]
+  refine ⟨⟨⟨⟨?_, ?_⟩, ?_⟩, ?_⟩, ?_⟩
+  · rw [hA]; simp
+  · simp only [decide_eq_true_eq]; exact hC.1
+  · rw [List.all_eq_true]
+    intro r hr
+    obtain ⟨x, hx, rfl⟩ := List.mem_map.mp hr
+    simp only [decide_eq_true_eq]
+    exact hD x hx
+  · rw [List.all_eq_true]
+    intro r hr
+    rcases hB r hr with h1 | h1
+    · rw [List.contains_iff_mem.mpr h1]; rfl
+    · simp [h1]
+  · cases hl : whole.getLast? with
+    | none =>
+      have hnil : whole = [] := List.getLast?_eq_none_iff.mp hl
+      have h2 := hC.2 o.offset (by intro b hb; rw [hnil] at hb; simp at hb)
+      have h1 := hC.1
+      simp only [beq_iff_eq]
+      show next = o.offset
+      omega
+    | some b =>
+      obtain ⟨ys, hys⟩ := List.getLast?_eq_some_iff.mp hl
+      simp only [decide_eq_true_eq]
+      show next ≤ max o.offset (b.last + 1)
+      apply hC.2
+      intro b' hb'
+      rw [hys] at hb' hwf'
+      rcases List.mem_append.mp hb' with h1 | h1
+      · have := (List.pairwise_append.mp hwf'.ord).2.2 b' h1 b (by simp)
+        have := (hwf'.batch b (by simp)).firstLast
+        omega
+      · simp at h1; subst h1; omega
+
+/-- The byte-level fact behind the hypothesis `RepBatch.raw`: every v2 batch the framing walk decodes from bytes holds at
+least two bytes per decoded record (so a batch whose claimed count exceeds its decodable records is never mistaken for a
+complete one by the clamp `numRecords = len(rawRecords)`). -/
+theorem decoded_batch_two_bytes_per_record (env : Env) (rb : RawBatch) :
+    2 * (mkBatch env rb).recs.length ≤ (mkBatch env rb).rawLen := Proof.C06.mkBatch_raw env rb
+
+/-! Non-vacuity (the log of `Proof/C06Top.lean`): a v1 message at 9; producer 7's aborted transaction at 10..12; plain data
+13..15 with a compaction gap and a preserved last offset (LogAppendTime); the ABORT marker (a control record) at 16; a
+committed transaction of producer 7 at 17..18; a batch 19..21 cut short after its first record; then a truncated frame.
+read_committed fetch at offset 11 (inside the first transactional batch), aborted list `[(7, 10)]`. -/
+
+open Proof.C06 in
+/-- the model returns a result on it (the hypothesis `h` of the theorems is satisfiable): the records at 13, 17, 18, 19 — the
+aborted 11 and 12 and the marker at 16 are dropped — and a next offset that does not pass the unreturned record at 20 -/
+example : ∃ recs next err, process exOpts false exAborted (exItems ++ [.stop none]) = .done recs next err ∧
+    (recs.map obs).map (·.offset) = [13, 17, 18, 19] ∧ next ≤ 20 := by
+  obtain ⟨recs, next, err, h, hrecs, _, hcut⟩ :=
+    process_sim (tail := [.stop none]) ex_rep ex_wf ex_cons ex_complete (Or.inr ⟨none, [], rfl⟩)
+  refine ⟨recs, next, err, h, ?_, ?_⟩
+  · rw [hrecs]; decide
+  · have := hcut exCutBatch (by decide) ⟨20, some 5001, exKey, exVal 20, []⟩ (by decide)
+    have h2 : next ≤ max 11 20 := this
+    omega
+
+open Proof.C06 in
+example : ∀ recs next err, process exOpts false exAborted (exItems ++ [.stop none]) = .done recs next err →
+    recs.map obs = Spec.C06.refRecords (reqOf exOpts exAborted) exLog :=
+  records_eq_reference_partial exOpts exAborted exItems [.stop none] exLog ex_rep ex_wf_whole ex_cons_whole ex_complete
+    (Or.inr ⟨none, [], rfl⟩)
+
+open Proof.C06 in
+/-- the reference decoder on that log: four records; in full (with the part of the log beyond the response) seven -/
+example : (Spec.C06.refRecords (reqOf exOpts exAborted) exLog).map (·.offset) = [13, 17, 18, 19] := by decide
+open Proof.C06 in
+example : (Spec.C06.refRecords (reqOf exOpts exAborted) (exLog ++ exRest) true).map (·.offset) = [13, 17, 18, 19, 20, 21, 22] := by decide
+
+open Proof.C06 in
+example : ∀ recs next err, process exOpts false exAborted (exItems ++ [.stop none]) = .done recs next err →
+    ∀ r ∈ Spec.C06.refRecords (reqOf exOpts exAborted) (exLog ++ exRest) true, r ∈ recs.map obs ∨ next ≤ r.offset :=
+  next_never_passes_unreturned_partial exOpts exAborted exItems [.stop none] exLog exRest ex_rep ex_wf ex_cons ex_complete
+    (Or.inr ⟨none, [], rfl⟩)
+
+open Proof.C06 in
+/-- and the whole predicate of the Spec on that response (the log continues with `exRest` beyond it) -/
+example : ∀ recs next err, process exOpts false exAborted (exItems ++ [.stop none]) = .done recs next err →
+    Spec.C06.holds (reqOf exOpts exAborted) exLog exRest (recs.map obs) next = true :=
+  spec_holds_partial exOpts exAborted exItems [.stop none] exLog exRest ex_rep ex_wf ex_cons ex_complete (Or.inr ⟨none, [], rfl⟩)
+
+/-! A second log (repaired in /repo 581b089, see known_findings): a v1 gzip wrapper stamped LogAppendTime at 39..41 (inner relative
+offsets 0 and 2, producer timestamps 77 and 78, broker time 5000) and a v0 message at 42; fetch at 40, inside the wrapper. The
+reference — and hence the model — returns 41 with timestamp 5000 and attributes gzip|LogAppendTime, and 42 without timestamp. -/
+
+open Proof.C06 in
+example : ∀ recs next err, process exOpts2 false [] exItems2 = .done recs next err →
+    recs.map obs = [⟨41, some 5000, exKey, exVal 2, [], 9, -1, -1, -1⟩, ⟨42, none, exKey, exVal 3, [], 128, -1, -1, -1⟩] := by
+  intro recs next err h
+  have := records_eq_reference_partial exOpts2 [] exItems2 [] exLog2 ex2_rep ex2_wf ex2_cons (by decide) (Or.inl rfl) recs next err
+    (by simpa using h)
+  rw [this]; decide
+
+open Proof.C06 in
+example : process exOpts2 false [] exItems2 = .done
+    [⟨41, some 5000, exKey, exVal 2, [], 9, -1, -1, -1⟩, ⟨42, none, exKey, exVal 3, [], 128, -1, -1, -1⟩] 43 none := by decide
 
 end Props.C06
